@@ -170,7 +170,13 @@ def run(tier, seed, only=None):
         A = netlevel.physical_result(g0.xml, fr0)
         B = netlevel.physical_result(g.xml, fr)
         what = ["points", "obs", "stats", "ellipses", "cov"]
-        bad = netlevel.compare_physical(A, B, what=what)
+        # the two runs share the linearisation point only if they iterated equally often (a translation by 1e6 m or
+        # another axes orientation moves the rounding of the approximate coordinates and can flip gama's borderline
+        # decision to iterate once more): otherwise the results agree to the linearisation criterion only
+        same_point = g0.xml.get("iterations") == g.xml.get("iterations")
+        ck.count("runs with equal iteration counts" if same_point else "runs with different iteration counts")
+        bad = netlevel.compare_physical(A, B, what=what) if same_point else \
+            netlevel.compare_physical(A, B, what=what, tol_m=1e-6, rel=2e-4, res_tol=1e-2)
         corr = netlevel.correlated_obs_keys(net)
         seen_k = set()
         for key, msg, okey in bad:
@@ -193,7 +199,7 @@ def run(tier, seed, only=None):
             ck.sample(dict(index=i, transformation=name, kind=net.kind, features=feats,
                            head=txt.split("\n")[2]))
     ck.assumptions += ["the physical observation model and the axes/handedness mapping follow the manual",
-                       "tolerances: 1e-7 m on coordinates, 1e-6 relative (+ printed precision) elsewhere"]
+                       "tolerances: 1e-7 m on coordinates, 1e-6 relative (+ printed precision) elsewhere when both runs iterated equally often; 1e-6 m, 2e-4 relative, 1e-2 mm|cc on residuals otherwise (gama's linearisation criterion)"]
     ck.minimum = dict(evaluations=tier_n(tier, 150, 3000), distinct=25)
     return ck.finish()
 
